@@ -1059,6 +1059,7 @@ private:
         continue;
       s->closed = true;
       delEpoll(s->fd);
+      _fdTags.erase(s->fd); // the tag points at this session; after a restart the fd number is reused
       // SSL_shutdown before close(fd) — same ordering as closeNow
       if (s->ssl)
       {
